@@ -2,12 +2,12 @@
    Oracles (universally quantified): email.header.decode_header, bytes.decode, email.utils.getaddresses,
    str.lower, mimetypes.guess_type, every extractor (`run`); the MIME tree / mailparser record are inputs. *)
 From Coq Require Import ZArith List Bool.
-From S2T Require Import Lib.PyStr C03.Lib C03.Extract C03.ProofsM C16.Model C16.ProofsMbox C16.ProofsMail.
+From S2T Require Import Lib.PyStr C03.Lib C03.Extract C03.ProofsM C16.Model C16.ProofsMbox C16.ProofsMail C16.ProofsMsg.
 From S2T Require C07.Model.
 Import ListNotations.
 Open Scope N_scope.
 
-(* ---------------------------------------------------------------- mbox *)
+(* ---------------------------------------------------------------- mbox (the code at HEAD: C03.Extract.split_mbox_messages) *)
 (* split (concat_with_separators msgs) = msgs for LF and CRLF mailboxes, any number of messages, when no
    line of a message matches MBOX_FROM_PATTERN (bmsg_ok = no_body_line_matches_From + the message is
    non-empty and does not end in CR/LF, which _split_mbox_messages strips) *)
@@ -54,8 +54,7 @@ Example C16_lines_ok_satisfiable : lines_ok w_msg_lines = true.
 Proof. exact lines_ok_satisfiable. Qed.
 Print Assumptions C16_lines_ok_satisfiable.
 
-(* ... but the quoting is not undone: the result is the quoted text, not the message (finding mbox-from-quoting);
-   unesc_line is the inverse the code would need *)
+(* ... but the quoting is not undone: the result is the quoted text, not the message (finding mbox-from-quoting-not-undone) *)
 Theorem C16_mbox_quoting_undone_refuted :
   exists m : mbox_msg, lines_ok m = true /\
     split_mbox_messages (mbox_file [esc_msg m]) <> split_result [m] /\
@@ -71,14 +70,43 @@ Theorem C16_mboxrd_quoted_never_separator : forall l : str, is_from_line (esc_li
 Proof. exact esc_not_from. Qed.
 Print Assumptions C16_mboxrd_quoted_never_separator.
 
-(* ---------------------------------------------------------------- bodies *)
+(* ---- ALTERNATIVE definition split_mbox_messages_rd (fixes/proposed-not-applied/C16-mbox-unquote-from.patch, NOT the code at HEAD):
+   undoing the quoting while splitting gives split (concat (quote msgs)) = msgs with no hypothesis on the bodies *)
+Theorem C16_alt_mboxrd_roundtrip :
+  forall msgs : list mbox_msg, forallb lines_ok msgs = true ->
+    split_mbox_messages_rd (mbox_file (map esc_msg msgs)) = split_result msgs.
+Proof. exact mboxrd_roundtrip. Qed.
+Print Assumptions C16_alt_mboxrd_roundtrip.
+
+Theorem C16_alt_mbox_rd_roundtrip_unquoted :
+  forall (eol : str) (msgs : list bmsg),
+    is_eol eol = true -> forallb (bmsg_ok_rd eol) msgs = true ->
+    split_mbox_messages_rd (mbox_concat eol msgs) = map snd msgs.
+Proof. exact roundtrip_bytes_rd. Qed.
+Print Assumptions C16_alt_mbox_rd_roundtrip_unquoted.
+
+Example C16_alt_mbox_rd_hyp : bmsg_ok_rd LF (w_sep, s "Subject: x" ++ [NL; NL] ++ s "from here 2024") = true
+                              /\ bmsg_ok_rd CRLF (w_sep, s "Subject: x" ++ [CR; NL; CR; NL] ++ s "body") = true.
+Proof. split; [exact bmsg_ok_rd_satisfiable_lf | exact bmsg_ok_rd_satisfiable_crlf]. Qed.
+Print Assumptions C16_alt_mbox_rd_hyp.
+
+Theorem C16_alt_mbox_rd_boundaries :
+  forall data : str, (List.length (split_mbox_messages_rd data) <= count_from_lines data)%nat.
+Proof. exact boundaries_only_at_separators_rd. Qed.
+Print Assumptions C16_alt_mbox_rd_boundaries.
+
+(* ---------------------------------------------------------------- bodies (the code at HEAD: get_body_content) *)
 (* multipart: each body is the text of the FIRST part in document order (nested multiparts included) that is
    not disposed as attachment, has the wanted type, a non-empty payload and a non-empty decoded text *)
 Theorem C16_body_selection_spec :
-  forall root : part,
-    get_body_content true root = (first_text TEXT_PLAIN root, first_text TEXT_HTML root).
+  forall root : part, p_multi root = true ->
+    get_body_content root = (first_text TEXT_PLAIN root, first_text TEXT_HTML root).
 Proof. exact body_selection_spec. Qed.
 Print Assumptions C16_body_selection_spec.
+
+Example C16_body_selection_hyp : p_multi w_outer = true.
+Proof. reflexivity. Qed.
+Print Assumptions C16_body_selection_hyp.
 
 Theorem C16_body_is_no_attachment :
   forall (ct : str) (root : part),
@@ -88,23 +116,61 @@ Proof. exact body_never_attachment. Qed.
 Print Assumptions C16_body_is_no_attachment.
 
 Theorem C16_body_only_attachments_empty :
-  forall root : part, forallb is_attachment (walk root) = true -> get_body_content true root = ([], []).
+  forall root : part, p_multi root = true -> forallb is_attachment (walk root) = true -> get_body_content root = ([], []).
 Proof. exact all_attachments_no_body. Qed.
 Print Assumptions C16_body_only_attachments_empty.
 
 Theorem C16_body_single_part :
-  forall root : part,
-    get_body_content false root =
+  forall root : part, p_multi root = false ->
+    get_body_content root =
       if p_has root then (if str_eqb (p_ctype root) TEXT_HTML then ([], p_text root) else (p_text root, [])) else ([], []).
 Proof. exact body_single. Qed.
 Print Assumptions C16_body_single_part.
 
-(* "attachments skipped" does not cover what is INSIDE an attached message (finding body-inside-attached-message) *)
+(* "attachments skipped" does not cover what is INSIDE an attached message (finding body-from-attached-message); the
+   proposed variant returns no plain body for the same tree *)
 Theorem C16_body_outside_attachments_refuted :
-  exists root att p, In att (walk root) /\ is_attachment att = true /\ In p (below att) /\
-    C03.Lib.nonempty (p_text p) = true /\ fst (get_body_content true root) = p_text p.
+  exists root att p, In att (walk root) /\ contains (p_disp att) (s "attachment") = true /\ In p (below att) /\
+    C03.Lib.nonempty (p_text p) = true /\ fst (get_body_content root) = p_text p /\
+    fst (get_body_content_joined root) = [].
 Proof. exact body_inside_attachment. Qed.
 Print Assumptions C16_body_outside_attachments_refuted.
+
+(* only the first of several inline text parts is returned; the .eml path (and the proposed variant) joins them all
+   (finding eml-vs-mbox:several-inline-text-parts) *)
+Theorem C16_body_several_inline_parts :
+  fst (get_body_content w_two) = s "first" /\ fst (get_body_content_joined w_two) = s "first" ++ [NL] ++ s "second".
+Proof. exact several_inline_parts. Qed.
+Print Assumptions C16_body_several_inline_parts.
+
+(* ---- ALTERNATIVE definitions *_joined (fixes/proposed-not-applied/C16-mbox-body-and-attachments.patch, NOT the code at HEAD) *)
+Theorem C16_alt_body_joined_spec : forall root : part, get_body_content_joined root = body_spec_joined root.
+Proof. exact body_selection_spec_joined. Qed.
+Print Assumptions C16_alt_body_joined_spec.
+
+Theorem C16_alt_classify_parts_sound :
+  forall root p, (In p (inline_parts root) -> is_attachment_joined p = false /\ p_multi p = false) /\
+                 (In p (attachment_parts root) -> is_attachment_joined p = true).
+Proof. intros root p. split; [apply inline_parts_sound | apply attachment_parts_sound]. Qed.
+Print Assumptions C16_alt_classify_parts_sound.
+
+(* replacing an attachment, anywhere in the tree, by any other attachment leaves both bodies unchanged *)
+Theorem C16_alt_body_outside_attachments :
+  forall (ctx : list frame) (a a' : part), is_attachment_joined a = true -> is_attachment_joined a' = true ->
+    get_body_content_joined (plug ctx a) = get_body_content_joined (plug ctx a').
+Proof. exact body_ignores_attachment_contents. Qed.
+Print Assumptions C16_alt_body_outside_attachments.
+
+Example C16_alt_body_outside_attachments_hyp : is_attachment_joined w_att = true.
+Proof. vm_compute. reflexivity. Qed.
+Print Assumptions C16_alt_body_outside_attachments_hyp.
+
+Theorem C16_alt_mbox_attachments :
+  forall root : part,
+    get_attachments_joined root = map (fun p => (or_default (p_dname p) ATTACHMENT_NAME, p_ctype p)) (attachment_parts root)
+    /\ forall p, In p (attachment_parts root) -> is_attachment_joined p = true.
+Proof. exact get_attachments_joined_spec. Qed.
+Print Assumptions C16_alt_mbox_attachments.
 
 (* ---------------------------------------------------------------- headers *)
 (* unfolding inverts folding: first line + continuation lines (each starting with SP/TAB), LF or CRLF *)
@@ -213,3 +279,52 @@ Theorem C16_attachment_unrepaired_gate_refuted :
     a_flag a = false -> iterate_supported_attachments_unrepaired T lower mime R run [a] = ([], Completed).
 Proof. exact unrepaired_gate. Qed.
 Print Assumptions C16_attachment_unrepaired_gate_refuted.
+
+(* ---------------------------------------------------------------- .msg (msg_parser / olefile are oracles) *)
+(* "Name <address>" without further angle brackets: the name (outer white space and quotes removed) and the address *)
+Theorem C16_msg_recipient_angle :
+  forall name addr : str,
+    no_angle name = true -> no_angle addr = true -> C03.Lib.nonempty addr = true ->
+    str_eqb (strip (name ++ LT :: addr ++ [GT])) (name ++ LT :: addr ++ [GT]) = true ->
+    parse_single_recipient (name ++ LT :: addr ++ [GT]) = Some (strip_quotes (strip name), strip addr).
+Proof. exact recipient_angle. Qed.
+Print Assumptions C16_msg_recipient_angle.
+
+Example C16_msg_recipient_angle_hyp :
+  let name := [34] ++ s "John Doe" ++ [34; 32] in let addr := s "john@example.com" in
+  no_angle name = true /\ no_angle addr = true /\ C03.Lib.nonempty addr = true /\
+  str_eqb (strip (name ++ LT :: addr ++ [GT])) (name ++ LT :: addr ++ [GT]) = true /\
+  parse_single_recipient (name ++ LT :: addr ++ [GT]) = Some (s "John Doe", s "john@example.com").
+Proof. exact recipient_angle_hyp. Qed.
+Print Assumptions C16_msg_recipient_angle_hyp.
+
+(* a recipient string is cut at EVERY ";" and "," and the pieces are parsed independently, in order *)
+Theorem C16_msg_recipients_split :
+  forall (a : str) (sep : N) (b : str),
+    is_sep sep = true -> forallb (fun c => negb (is_sep c)) a = true ->
+    parse_multi_recipients (a ++ sep :: b) =
+      keep_recipient (parse_single_recipient a) ++ flat_map (fun p => keep_recipient (parse_single_recipient p)) (split_seps b).
+Proof. exact recipients_split. Qed.
+Print Assumptions C16_msg_recipients_split.
+
+(* ... so a quoted display name containing a comma is torn apart (finding msg-recipient-quoted-comma) *)
+Theorem C16_msg_quoted_comma_refuted :
+  parse_multi_recipients w_quoted = [([34] ++ s "Doe", []); (s "John", s "j@x.test")].
+Proof. exact quoted_comma_splits. Qed.
+Print Assumptions C16_msg_quoted_comma_refuted.
+
+(* body mapping: HTML detected -> (text of the HTML, the HTML); otherwise (the body, "") ; plain body stripped *)
+Theorem C16_msg_body_mapping :
+  forall (html_to_text : str -> str) (lowered raw : str),
+    msg_bodies html_to_text lowered raw =
+      if looks_like_html raw lowered then (strip (html_to_text raw), raw) else (strip raw, []).
+Proof. exact msg_bodies_spec. Qed.
+Print Assumptions C16_msg_body_mapping.
+
+Theorem C16_msg_attachment_mapping :
+  forall long short mime k : str,
+    msg_attachment long short mime k =
+      ((if C03.Lib.nonempty long then long else if C03.Lib.nonempty short then short else ATTACHMENT_DASH ++ k),
+       (if C03.Lib.nonempty mime then mime else s "application/octet-stream")).
+Proof. exact msg_attachment_spec. Qed.
+Print Assumptions C16_msg_attachment_mapping.
